@@ -22,19 +22,6 @@ def classify(f):
     """Narrow classifiers of the listed findings. f is one failure group of the harness."""
     cls, site, msg = f.get("class", ""), f.get("site", "") or "", f.get("msg", "") or ""
     entry, tag, mini = f.get("entry", "") or "", f.get("tag", "") or "", f.get("minimal", "") or ""
-    if cls == "PANIC":
-        if "GenerateInclude" in site and "not *zygo.SexpPair" in msg:
-            return "include-improper-list"
-        if "(*Stack).BindSymbol" in site and "nil pointer" in msg and ("mdef" in mini or "range" in mini):
-            return "mdef-nil-symbol"
-        if "GetOrCreateSliceType" in site and "nil pointer" in msg:
-            return "rebind-array-of-hash"
-        if entry == "ReplLine" and "range function continued iteration" in msg:
-            return "repl-eof-mid-form"
-    if cls == "ZYGO-PANIC" and "repl-stdin" in entry and "range function continued iteration" in msg:
-        return "repl-eof-mid-form"
-    if cls == "POISONED" and mini.lstrip().startswith("(struct") and "StandardSetup" in msg:
-        return "struct-name-poisons-setup"
     if f.get("stream") == "specials":
         name = tag.split(":", 1)[1] if ":" in tag else tag
         stack = "stack exceeds" in site or "stack overflow" in site
@@ -83,6 +70,8 @@ def main(argv):
         common.sh(["cp", os.path.join(common.REPO, "go.sum"), os.path.join(common.HARNESS, "go.sum")])
         rc, out = common.sh(["go", "build", "-o", zygo, "github.com/glycerine/zygomys/v9/cmd/zygo"], cwd=common.HARNESS, env=common.env_go(), timeout=1200)
     extra = ["--repo", common.REPO]
+    if os.environ.get("C01_STREAMS"):
+        extra += ["--streams", os.environ["C01_STREAMS"]]   # development aid: restrict the input streams
     if rc == 0:
         extra += ["--zygo", zygo]
     else:
@@ -92,6 +81,9 @@ def main(argv):
     if cases:
         failures = c.coverage.pop("failures", []) or []
         for f in failures:
+            if str(f.get("class", "")).startswith("UNCONFIRMED-"):
+                c.notes.append("not repeatable alone (machine load): %s %s" % (f.get("class"), json.dumps((f.get("input") or "")[:60])))
+                continue
             fid = classify(f)
             example = "%s via %s: %s" % (f.get("class"), f.get("entry"), json.dumps((f.get("minimal") or "")[:80]))
             if fid and c.known_finding(fid, example):
@@ -124,10 +116,6 @@ def main(argv):
             c.coverage["tie_cases"] = n
             c.coverage["tie_compared"] = cmp_n
             c.coverage["traces_validated_against_impl"] = cmp_n
-            c.coverage["refuted_witness_replayed_on_real_code"] = refuted_seen
-            if not refuted_seen and not corr_fail and "include-improper-list" in c.known:
-                corr_fail.append({"text": "(include ([] \\ 1))", "implementation": "no crash seen", "model": "crash:include-tail",
-                                  "note": "gen_total_refuted's witness no longer crashes the implementation: the model (and the finding line) are out of date"})
     seen = 0
     for f in prop_fail:
         seen += 1
@@ -150,7 +138,7 @@ def main(argv):
     if not prop_fail:
         if corr_fail:
             c.violation({"kind": "correspondence: compile outcome of the implementation differs from the generator model (Model/GenShape.v)",
-                         "cases": corr_fail[:10], "count": len(corr_fail), "theorems": ["gen_total_partial", "gen_total_refuted"]},
+                         "cases": corr_fail[:10], "count": len(corr_fail), "theorems": ["gen_total", "gen_no_latent"]},
                         no_input=True, tag="corr")
         elif c.proof_break:
             c.violation({"kind": "proof obligation no longer checks", "detail": c.proof_break}, no_input=True, tag="proof")
